@@ -302,13 +302,25 @@ func (s *Stream) Stop() {
 	// 已退出，故同步派发到 sink（不经 pool）——若在 close(done) 后仍走 pool，worker 已退出会
 	// 使 Flush 结果丢失。
 	if s.cep != nil {
-		s.emitCepFlushSync(s.projectCep(s.cep.engine.Flush()))
+		s.flushCep()
 	}
 
 	// Release table sources (custom sources may own background refresh goroutines).
 	if s.tables != nil {
 		s.tables.closeAll()
 	}
+}
+
+// flushCep delivers the matches still open at Stop. A panic raised while a flushed match is
+// evaluated (a user function in MEASURES) is recovered like the same panic is per row in
+// processItem: Stop must not panic in its caller, and the table sources must still be closed.
+func (s *Stream) flushCep() {
+	defer func() {
+		if r := recover(); r != nil {
+			s.log.Error("cep flush panic recovered: %v", r)
+		}
+	}()
+	s.emitCepFlushSync(s.projectCep(s.cep.engine.Flush()))
 }
 
 // RegisterTableSource registers a custom table source for stream-table JOIN.
